@@ -60,6 +60,11 @@ def filter_specs():
     for op, vals in (("=", [M1, IP, "tool--" + U + "9"]), ("!=", [M1]), ("in", [[M1, IND], ["tool--" + U + "9"], [M2, XF, IP]]), (">", [IND]), ("contains", ["--" + U + "1"])):
         for v in vals:
             F.append(("id", op, v))
+    # LONG `in` lists (a shortcut that looks names up one by one may switch strategy at some length): the listed population members must still be found
+    filler_ids = ["tool--3f7f0c5f-5d54-4292-94ea-%012x" % i for i in range(1, 300)]
+    F.append(("id", "in", filler_ids[:16] + [M1, IND] + filler_ids[16:31]))                                   # 33 entries
+    F.append(("id", "in", filler_ids[:150] + [M2, XF, IP] + filler_ids[150:]))                                # 302 entries
+    F.append(("type", "in", ["x-fill-%d" % i for i in range(20)] + ["malware", "tool"] + ["x-fill-%d" % i for i in range(20, 45)]))   # 47 entries
     F += [("name", "=", "alpha"), ("name", "!=", "alpha"), ("name", "in", ["alpha", "beta"]), ("name", "contains", "lph"), ("name", ">", "alpha"),
           ("labels", "=", "a"), ("labels", "contains", "a"), ("labels", "in", ["a", "z"]), ("labels", "!=", "a"),
           ("created", ">", "2020-01-01T00:00:00Z"), ("created", ">=", "2020-01-02T00:00:00.000000Z"), ("modified", "<", "2020-01-02T00:00:00.000Z"),
